@@ -214,7 +214,7 @@ fn decoder_sub(maxlen: usize) -> Sub {
     Sub::new(
         "decoder-member-sequences",
         nm + 1,
-        format!("every JSON object whose member sequence has length <= {maxlen} over a 16-member alphabet (registered claims with good, bad, null, offset-timestamp and escaped-key values, duplicates, unknown and nested members, wrong case), plus non-object roots"),
+        format!("every JSON object whose member sequence has length <= {maxlen} over a 16-member alphabet (registered claims with good, bad, null, offset-timestamp and escaped-key values, duplicates, unknown and nested members, wrong case), plus non-object roots, plus complete documents (all seven registered claims in every rotation and reversed) with one and two unknown members at every position"),
         move |idx, describe| {
             let mut o = Outcome::new();
             o.evals = 0;
@@ -224,6 +224,35 @@ fn decoder_sub(maxlen: usize) -> Sub {
                 }
                 for m in ms.iter() {
                     check_doc(&mut o, &format!("{{{}}}", m.0), false);
+                }
+                // complete documents: all seven registered claims (every rotation of their order, and reversed) with
+                // unknown members inserted at every position, one and two at a time; a decoder that stops early, counts
+                // members or depends on the order of the last member shows here and not in sequences of length 4
+                let full: [&str; 7] = [r#""iss":"a""#, r#""sub":"s""#, r#""aud":"d""#, r#""exp":"2024-01-01T00:00:00Z""#, r#""nbf":"2023-01-01T00:00:00Z""#, r#""iat":"2023-06-01T00:00:00Z""#, r#""jti":"j""#];
+                let unknown: [&str; 3] = [r#""x":1"#, r#""y":{"iss":"nested"}"#, r#""z":[null]"#];
+                let mut orders: Vec<Vec<&str>> = (0..7).map(|r| (0..7).map(|i| full[(i + r) % 7]).collect()).collect();
+                orders.push(full.iter().rev().copied().collect());
+                for ord in orders.iter() {
+                    check_doc(&mut o, &format!("{{{}}}", ord.join(",")), false);
+                    for pos in 0..=7usize {
+                        for u in unknown {
+                            let mut v = ord.clone();
+                            v.insert(pos, u);
+                            check_doc(&mut o, &format!("{{{}}}", v.join(",")), false);
+                            for pos2 in pos..=8usize {
+                                let mut w = v.clone();
+                                w.insert(pos2, r#""w":"second unknown""#);
+                                check_doc(&mut o, &format!("{{{}}}", w.join(",")), false);
+                            }
+                        }
+                    }
+                    // six of the seven present, unknown member last
+                    for drop in 0..7usize {
+                        let mut v = ord.clone();
+                        v.remove(drop);
+                        v.push(unknown[0]);
+                        check_doc(&mut o, &format!("{{{}}}", v.join(",")), false);
+                    }
                 }
             } else {
                 let first = &ms[idx as usize];
